@@ -4,6 +4,7 @@ import RotondaModel.Model.PipeBmp
 Case line:  `P|<query prefixes>|<event> <event> …`
   events   `c.<rk>.<k0,k1,…|->`                      a connection is accepted: router key class, key class of header 0, 1, …
            `<i>:i` `<i>:t` `<i>:u.<h>.<gr>.<c4>` `<i>:d.<h>` `<i>:s.<h>` `<i>:m.<h>`     message on connection i
+           `<i>:x`                                   connection i is lost (end of input without a Termination message)
            `<i>:r.<h>~<p4><p2>.<eor|->.<pure>.<na>.<nw>.<fa>.<xok><avok>~<M | attr;ann;wd>~<ignored>`   Route Monitoring:
                                                        the real parser's report and the route content of the UPDATE
 Output:    `<snapshot> | … | <final>`  — one snapshot (per query prefix the include_withdrawn answer) after every
@@ -74,7 +75,7 @@ def parseMsg (s : String) : Option Msg :=
 /-- An event and, for a `connect`, the key classes of the new connection's headers. -/
 def parseEv (s : String) : Option (Ev × List Nat) :=
   match s.splitOn ":" with
-  | [i, m] => do some (.msg (← i.toNat?) (← parseMsg m), [])
+  | [i, m] => if m == "x" then do some (.disconnect (← i.toNat?), []) else do some (.msg (← i.toNat?) (← parseMsg m), [])
   | [c] =>
     (match c.splitOn "." with
      | ["c", rk, ks] => do
@@ -112,6 +113,13 @@ def sessionLevel : Rib.Update → Bool
   | .withdrawBulk .. => true
   | _ => false
 
+/-- Apply the updates one by one; one snapshot after every session-level withdrawal. -/
+def applySnap (v : Variant) (qs : List Rib.Prefix) : Rib.Rib → List Rib.Update → List String → Rib.Rib × List String
+  | r, [], acc => (r, acc)
+  | r, u :: us, acc =>
+    let r' := r.apply v.rib u
+    applySnap v qs r' us (if sessionLevel u then snapshot r' qs :: acc else acc)
+
 def runCase (v : Variant) (line : String) : String :=
   match line.splitOn "|" with
   | "P" :: qs :: evs :: _ =>
@@ -132,13 +140,23 @@ def runCase (v : Variant) (line : String) : String :=
             let w' := w.step v K e
             match e with
             | .connect rk => go w' rest snaps (s!"c{(Bmp.regFor rk ⟨.initiating, [], w.reg, w.next⟩).2.2}" :: info)
+            | .disconnect i =>
+              match w.sess[i]? with
+              | none => go w' rest snaps ("nc" :: info)
+              | some s =>
+                if lifeOf s.phase == .dead then go w' rest snaps ("closed" :: info) else
+                let (r2, snaps) := applySnap v qs w.rib (epilogue (w.rids.getD i 0) w.par) snaps
+                go w' rest (if r2 == w'.rib then snaps else "driver-desync" :: snaps) ("x" :: info)
             | .msg i m =>
               match w.sess[i]? with
               | none => go w' rest snaps ("nc" :: info)
               | some s =>
                 let r := Bmp.step v.bmp (K i) (w.view s) m.toBmp
                 let ups := emit v.rib m r.out
-                let snaps := if ups.any sessionLevel then snapshot w'.rib qs :: snaps else snaps
+                let rid := w.rids.getD i 0
+                let all := ups ++ (if endedBy (lifeOf s.phase) (lifeOf r.st.phase) then epilogue rid (w.par ++ newChildren rid w.next r.st.next) else [])
+                let (r2, snaps) := applySnap v qs w.rib all snaps
+                let snaps := if r2 == w'.rib then snaps else "driver-desync" :: snaps
                 let o := match ups with
                   | [.bulk ps] =>
                     (match ps with
